@@ -54,6 +54,15 @@ def Msg.byebye? (m : Msg σ) : Option σ :=
      | _, _ => none)
   else none
 
+/-- what the receive path guarantees about a message (`decode_ssdp_packet` / `_on_data`): `_udn` is the udn of
+    a uuid USN whenever there is one; an advertisement has an NTS; `\d+` is not negative -/
+def Msg.wf (m : Msg σ) : Bool :=
+  (m.udn.isNone || decide (m.udnHdr = m.udn)) && (decide (m.kind = .search) || m.ntsOk) && decide (0 ≤ m.maxAge)
+
+def Ev.wf : Ev σ → Bool
+  | .msg m => m.wf
+  | _ => true
+
 def Ev.time : Ev σ → Int
   | .msg m => m.ts
   | .purge now => now
@@ -77,10 +86,13 @@ def specStep (sp : Sp σ) (e : Ev σ) : Sp σ :=
 def findDev (s : Snap σ) (u : σ) : Option (DevObs σ) := s.find? fun d => decide (d.udn = u)
 
 def presentOk (sp : Sp σ) (after : Snap σ) : Bool :=
-  sp.all fun p => !p.2.2 ||
-    (match findDev after p.1 with
-     | some d => d.location.isSome
-     | none => false)
+  (keys sp).all fun u =>
+    match get? sp u with
+    | some (_, true) =>
+      (match findDev after u with
+       | some d => d.location.isSome
+       | none => false)
+    | _ => true
 
 def expiredGoneOk (sp : Sp σ) (t : Int) (after : Snap σ) : Bool :=
   after.all fun d =>
